@@ -18,7 +18,7 @@ ASSUMPTIONS = common.ASSUME_QR + ['a one-symbol result may or may not carry a St
                                   'version and symbol_count both given: only the common clauses are checked (DESIGN 4.1)']
 REQUIRED = ['evaluations', 'encode_sequence_observed', 'sequences_checked', 'multi_symbol_sequences', 'symbols_decoded_in_sequences',
             'sequences_by_symbol_count', 'sequences_by_version']
-TIMEOUT = {'quick': 900, 'thorough': 7200}
+TIMEOUT = {'quick': 3600, 'thorough': 21600}
 
 
 def gen_cases(tier, seed):
